@@ -68,7 +68,11 @@ func applyServiceExtends(ctx context.Context, name string, services map[string]a
 	)
 	switch v := extends.(type) {
 	case map[string]any:
-		ref = v["service"].(string)
+		r, ok := v["service"].(string)
+		if !ok {
+			return nil, fmt.Errorf("services.%s.extends.service is required and must be a string", name)
+		}
+		ref = r
 		file = v["file"]
 		opts.ProcessEvent("extends", v)
 	case string:
@@ -82,7 +86,10 @@ func applyServiceExtends(ctx context.Context, name string, services map[string]a
 	)
 
 	if file != nil {
-		refFilename := file.(string)
+		refFilename, ok := file.(string)
+		if !ok {
+			return nil, fmt.Errorf("services.%s.extends.file must be a string", name)
+		}
 		services, processor, err = getExtendsBaseFromFile(ctx, name, ref, filename, refFilename, opts, tracker)
 		post = append(post, processor)
 		if err != nil {
@@ -108,7 +115,15 @@ func applyServiceExtends(ctx context.Context, name string, services map[string]a
 	}
 
 	if base == nil {
-		return service, nil
+		// the base service is declared without any attribute: nothing to inherit
+		resolved := map[string]any{}
+		for k, v := range service {
+			if k != "extends" {
+				resolved[k] = v
+			}
+		}
+		services[name] = resolved
+		return resolved, nil
 	}
 	source := deepClone(base).(map[string]any)
 
